@@ -9,4 +9,5 @@ CONSTANTS
   KF_V12OmitsEmpty = FALSE
   KF_MarkedFlagUncovered = FALSE
   KF_CoinbaseRider = FALSE
+  KF_PlayPooledIdUnchecked = FALSE
 CHECK_DEADLOCK FALSE
